@@ -81,44 +81,24 @@ theorem sub_sse_eq_portable (a x : Nat) : subSse a x = subPortable a x := by
 
 /-- one byte: the two variants agree for every filter type, on byte operands -/
 theorem step_sse_eq_portable (f : Nat) (pe : Bool) (a b c x : Nat) (ha : a < 256) (hb : b < 256) (hc : c < 256) :
-    step .sse f pe a b c x = step .portable f pe a b c x := by
-  unfold step
+    stepSse f pe a b c x = stepPortable f pe a b c x := by
+  unfold stepSse stepPortable
   by_cases h1 : f = 1
-  · simp only [h1, ↓reduceIte]
+  · rw [if_pos h1, if_pos h1]
     exact sub_sse_eq_portable a x
-  · by_cases h3 : f = 3
-    · simp only [h1, h3, ↓reduceIte]
+  · rw [if_neg h1, if_neg h1]
+    by_cases h3 : f = 3
+    · rw [if_pos h3, if_pos h3]
       cases pe
-      · simp only [Bool.false_eq_true, ↓reduceIte]
+      · rw [if_neg (by decide), if_neg (by decide)]
         exact avg_sse_eq_portable a b x ha hb
-      · simp only [↓reduceIte]
+      · rw [if_pos rfl, if_pos rfl]
         exact avgFirst_sse_eq_portable a x ha
-    · by_cases h4 : f = 4
-      · simp only [h1, h3, h4, ↓reduceIte]
+    · rw [if_neg h3, if_neg h3]
+      by_cases h4 : f = 4
+      · rw [if_pos h4, if_pos h4]
         exact paeth_sse_eq_portable a b c x ha hb hc
-      · simp only [h1, h3, h4, ↓reduceIte]
+      · rw [if_neg h4, if_neg h4]
 
-/-- `png_filters_sse_eq_portable`: for every filter type, filter distance, current row and previous
-row (of any lengths), the SSE4.2 row filter and the portable one produce the same bytes. -/
-theorem png_filters_sse_eq_portable (f d : Nat) (curr prev : Array UInt8) :
-    runRow .sse f d curr prev = runRow .portable f d curr prev := by
-  unfold runRow
-  congr 2
-  funext out i
-  simp only
-  congr 2
-  apply step_sse_eq_portable
-  · split
-    · omega
-    · exact UInt8.toNat_lt _
-  · exact UInt8.toNat_lt _
-  · split
-    · omega
-    · exact UInt8.toNat_lt _
-
-/-- non-vacuity / sanity: a Paeth row where all three predictors are chosen at least once -/
-example :
-    runRow .sse 4 1 #[10, 200, 3, 250, 7] #[5, 100, 200, 0, 255] = runRow .portable 4 1 #[10, 200, 3, 250, 7] #[5, 100, 200, 0, 255] ∧
-    runRow .portable 4 1 #[10, 200, 3, 250, 7] #[5, 100, 200, 0, 255] = [15, 59, 203, 197, 6] := by decide
 
 end WuffsVerif.Props.C09
